@@ -302,7 +302,7 @@ func TestKnownD1(t *testing.T) {
 
 var forgeries = []string{"genuine", "tx-added", "header.AppHash", "header.Time", "header.Proposer", "evidence-hash", "other-valid-block",
 	"second.commit-below-23", "second.commit-wrong-signers", "second.commit-other-round", "second.commit-other-id", "second.commit-all-nil-flag", "second.commit-duplicated-signer",
-	"pair.nil-precommits", "pair.at-most-two-thirds", "pair.at-most-two-thirds", "pair.wrong-signers", "pair.signer-at-wrong-index", "pair.one-signer-under-own-address"}
+	"pair.nil-precommits", "pair.at-most-two-thirds", "pair.at-most-two-thirds", "pair.wrong-signers", "pair.signer-at-wrong-index", "pair.one-signer-under-own-address", "pair.most-by-next-set", "pair.most-by-next-set"}
 
 // TestBlockSync drives the REAL block-sync processor of a fresh node with genuine and forged blocks of a real chain.
 func TestBlockSync(t *testing.T) {
@@ -320,14 +320,46 @@ func TestBlockSync(t *testing.T) {
 		}
 		defer s.Close()
 		H := uint64(rapid.IntRange(3, 6).Draw(t, "H"))
+		// half of the chains change their validator set on the way: real staking transactions (delegations to /
+		// undelegations from validators) in drawn blocks, so that consecutive heights are signed by different sets
+		var st *netsim.Staker
+		var stakeLog []string
+		if rapid.Bool().Draw(t, "validator-changes") {
+			if st, err = netsim.NewStaker(s); err != nil {
+				t.Fatalf("harness: %v", err)
+			}
+		}
 		s.Start()
-		var ok bool
-		var why string
-		ev.Guard(t, nil, func() { ok, _, why = s.SyncRun(s.Correct, H+1, 2000) })
-		if !ok {
-			t.Fatalf("harness: could not build the chain: %s", why)
+		for target := uint64(2); target <= H+1; target++ {
+			if st != nil && rapid.IntRange(0, 2).Draw(t, "stake") > 0 {
+				d, v := rapid.IntRange(0, 1).Draw(t, "delegator"), rapid.IntRange(0, n-1).Draw(t, "to")
+				units := int64(rapid.IntRange(1, 25).Draw(t, "units"))
+				if st.Staked[d][v] && rapid.Bool().Draw(t, "undelegate") {
+					units = 0
+				}
+				if err := st.Send(d, v, units); err != nil {
+					t.Fatalf("harness: %v", err)
+				}
+				stakeLog = append(stakeLog, fmt.Sprintf("block %d: account %d -> validator %d: %d", target-1, d, v, units))
+			}
+			var ok bool
+			var why string
+			ev.Guard(t, nil, func() { ok, _, why = s.SyncRun(s.Correct, target, 2000) })
+			if !ok {
+				t.Fatalf("harness: could not build the chain: %s", why)
+			}
 		}
 		src := s.Nodes[0]
+		setsDiffer := false
+		if st != nil {
+			for h := uint64(2); h <= H; h++ {
+				a, e1 := src.Store.LoadValidators(h - 1)
+				b, e2 := src.Store.LoadValidators(h)
+				if e1 == nil && e2 == nil && a != nil && b != nil && a.Hash() != b.Hash() {
+					setsDiffer = true
+				}
+			}
+		}
 		genuine := map[uint64]*types.Block{}
 		for h := uint64(1); h <= H; h++ {
 			genuine[h] = src.BOps.LoadBlock(h)
@@ -342,7 +374,7 @@ func TestBlockSync(t *testing.T) {
 		}
 		defer fresh.Close()
 		proc := blockchain.VerifNewProcessor(fresh.BOps, fresh.Exec, fresh.CS.VerifState())
-		log := []string{fmt.Sprintf("chain powers=%v H=%d", powers, H)}
+		log := []string{fmt.Sprintf("chain powers=%v H=%d staking=%v", powers, H, stakeLog)}
 		text := func() string { return strings.Join(log, ";") }
 		forgedOffered := 0
 		peer := 0
@@ -409,6 +441,9 @@ func TestBlockSync(t *testing.T) {
 			if b == nil || b.Hash() != genuine[h].Hash() {
 				ev.Violation(t, "sync.adopted-forgery", text(), "after sync, height %d differs from the committed chain", h)
 			}
+		}
+		if setsDiffer {
+			ev.Class("blocksync:validator-set-changes-within-the-chain")
 		}
 		ev.Case(forgedOffered > 0, text(), "blocksync")
 		if forgedOffered > 0 && ev.WantSample("blocksync") {
@@ -574,6 +609,37 @@ func forgePair(s *netsim.Sim, src *netsim.Node, genuine map[uint64]*types.Block,
 	sigs := make([]types.CommitSig, vals.Size())
 	total := vals.TotalVotingPower()
 	var have int64
+	// "pair.most-by-next-set": the signers hold at most 2/3 by the set entitled to sign height h and as much as possible
+	// by the NEXT height's set (a verifier that weighs the commit with the wrong height's set may see +2/3)
+	var chosen map[int]bool
+	if kind == "pair.most-by-next-set" {
+		next, err := src.Store.LoadValidators(h + 1)
+		if err != nil || next == nil || vals.Size() > 10 {
+			return nil, nil
+		}
+		best, bestNext := -1, int64(-1)
+		for mask := 0; mask < 1<<uint(vals.Size()); mask++ {
+			var p, q int64
+			for i := 0; i < vals.Size(); i++ {
+				if mask&(1<<uint(i)) != 0 {
+					p += vals.Validators[i].VotingPower
+					if _, nv := next.GetByAddress(vals.Validators[i].Address); nv != nil {
+						q += nv.VotingPower
+					}
+				}
+			}
+			if p*3 <= total*2 && q > bestNext {
+				best, bestNext = mask, q
+			}
+		}
+		if best <= 0 {
+			return nil, nil
+		}
+		chosen = map[int]bool{}
+		for i := 0; i < vals.Size(); i++ {
+			chosen[i] = best&(1<<uint(i)) != 0
+		}
+	}
 	for i := 0; i < vals.Size(); i++ {
 		_, v := vals.GetByIndex(uint32(i))
 		k := keyOf(v.Address)
@@ -603,6 +669,11 @@ func forgePair(s *netsim.Sim, src *netsim.Node, genuine map[uint64]*types.Block,
 				return nil, nil
 			}
 			k = keyOf(w.Address)
+		} else if chosen != nil {
+			if !chosen[i] {
+				sigs[i] = types.NewCommitSigAbsent()
+				continue
+			}
 		} else if (have+v.VotingPower)*3 > total*2 {
 			sigs[i] = types.NewCommitSigAbsent()
 			continue
